@@ -132,7 +132,12 @@ def module_level(R, rng, ncells):
                         rows = cell.nodes.index[~cell.nodes[key].isna()].to_numpy()
                         cell.select(nodes=rows).set(key, rng.uniform(lo, hi, len(rows)))
             before = cell.nodes.copy()
-            cell.init_states()
+            try:
+                cell.init_states()
+            except Exception as ex:
+                R.spec_fail(dict(kind="init_states-raises", err=type(ex).__name__), f"init_states raises {type(ex).__name__}: {str(ex)[:120]}",
+                            dict(parents=parents, ncomps=ncomps, channels=[(nm, ch._name) for nm, ch in chans], phase=phase), repr(ex)[:200])
+                break
             after = cell.nodes
             R.evaluations += 1
             desc = dict(parents=parents, ncomps=ncomps, channels=[(nm, ch._name) for nm, ch in chans], phase=phase)
